@@ -79,7 +79,17 @@ def observe(cats, remove, skip, frame_rows, ncat, nnum, kind="str"):
     B = make_frame(frame_rows, ncat, nnum, idx)
     B0 = B.copy(deep=True)
     out = {}
-    tr = CategoriesToIntegers(columns=cols, remove=rm, skip_errors=skip, single=False).fit(A)
+    tr = CategoriesToIntegers(columns=cols, remove=rm, skip_errors=skip, single=False)
+    prior = (len(frame_rows) + ncat + len(remove)) % 3 == 0
+    if prior:
+        # an earlier life of the transformer: other categories (codes 7..9) in every column, one transform
+        A0 = fit_frame([[7, 8, 9][: 1 + (c % 3)] + [9] for c in range(ncat)], ncat, nnum)
+        try:
+            tr.fit(A0)
+            tr.transform(A0.copy(deep=True))
+        except Exception:
+            pass
+    tr.fit(A)
     sch = schema_of(tr, A, nnum)
     out["schema"] = [code_of(s) for s in sch]
     try:
@@ -103,7 +113,14 @@ def observe(cats, remove, skip, frame_rows, ncat, nnum, kind="str"):
     if not B.equals(B0):
         out["numeric_ok"] = False
     # single=True
-    ts = CategoriesToIntegers(columns=cols, remove=rm, skip_errors=skip, single=True).fit(A)
+    ts = CategoriesToIntegers(columns=cols, remove=rm, skip_errors=skip, single=True)
+    if prior:
+        try:
+            ts.fit(A0)
+            ts.transform(A0.copy(deep=True))
+        except Exception:
+            pass
+    ts.fit(A)
     out["single"] = [[-9] * ncat for _ in frame_rows]
     out["single_rest_ok"] = True
     try:
